@@ -323,6 +323,7 @@ class JordanCurve:
         point = Point2D(*point)
         for vertex in self.vertices:
             vertex.move(point)
+        self.__lenght = None
         return self
 
     def scale(self, xscale: float, yscale: float) -> JordanCurve:
@@ -353,6 +354,7 @@ class JordanCurve:
         float(yscale)
         for vertex in self.vertices:
             vertex.scale(xscale, yscale)
+        self.__lenght = None
         return self
 
     def rotate(self, angle: float, degrees: bool = False) -> JordanCurve:
@@ -385,6 +387,7 @@ class JordanCurve:
             angle *= np.pi / 180
         for vertex in self.vertices:
             vertex.rotate(angle)
+        self.__lenght = None
         return self
 
     def invert(self) -> JordanCurve:
